@@ -169,6 +169,9 @@ func c19Second(w *W, t ref.Stamp, checkOrder bool) {
 	w.Distinct(1)
 }
 
+// c19Printed: rendering -> civil day, for the civil year being walked (nil outside a year walk)
+var c19Printed map[string]string
+
 func c19LunarDay(w *W, cy, cm, cd int) {
 	key := ymd(cy, cm, cd)
 	w.Cur("C19 lunar " + key)
@@ -183,6 +186,17 @@ func c19LunarDay(w *W, cy, cm, cd int) {
 			w.Violatef("lunar-parse", what+"@"+key, "%s of %s (%d-%d-%d) = %q does not parse: %s", what, key, wy, m, d, str, e)
 		} else if py != wy || pm != m || pd != d {
 			w.Violatef("lunar-parse", what+"@"+key, "%s of %s = %q parses to %d-%d-%d, the date is %d-%d-%d", what, key, str, py, pm, pd, wy, m, d)
+		}
+		w.Eval(1)
+	}
+	// distinct civil days never print alike (judged directly, within the walk of one civil year: parse-back alone cannot see
+	// two days that were handed the same year, month and day)
+	if c19Printed != nil {
+		for kind, s := range map[string]string{"Lunar": l.String(), "Tao": l.GetTao().String(), "Foto": l.GetFoto().String(), "Lunar parts": l.GetYearInChinese() + "年" + l.GetMonthInChinese() + "月" + l.GetDayInChinese()} {
+			if prev, ok := c19Printed[kind+"|"+s]; ok && prev != key {
+				w.Violatef("print-alike", kind+"@"+key, "%s rendering %q is printed for both %s and %s", kind, s, prev, key)
+			}
+			c19Printed[kind+"|"+s] = key
 		}
 		w.Eval(1)
 	}
@@ -241,10 +255,12 @@ func c19Run(w *W, c Case) {
 	case "lunar":
 		y := c.A[0]
 		w.Class(fmt.Sprintf("lunar/century%02d", y/100))
-		for j := ref.JDN(y, 1, 1); j <= ref.JDN(y, 12, 31); j++ {
+		c19Printed = map[string]string{}
+		for j := ref.JDN(y, 1, 1); j <= ref.JDN(y, 12, 31)+45 && j <= ref.MaxJDN; j++ {
 			cy, cm, cd := ref.FromJDN(j)
 			c19LunarDay(w, cy, cm, cd)
 		}
+		c19Printed = nil
 		if y == 2033 {
 			w.Sample("lunar", calendar.NewSolarFromYmd(2033, 12, 25).GetLunar().String())
 		}
